@@ -10,7 +10,8 @@ from sympy.printing.printer import Printer
 
 from .symbols import DimensionSymbol, next_name
 from ..dimensions.collect_quantity import collect_quantity_factor_and_dimension
-from ..dimensions.dimensions import dimension_to_si_unit  # to avoid cyclic import
+from ..dimensions.dimensions import assert_equivalent_dimension, dimension_to_si_unit  # to avoid cyclic import
+from ..errors import UnitsError
 
 
 class Quantity(DimensionSymbol, SymQuantity):  # type: ignore[misc]  # pylint: disable=too-many-ancestors
@@ -95,7 +96,13 @@ class Quantity(DimensionSymbol, SymQuantity):  # type: ignore[misc]  # pylint: d
 
 # Allows for some SymPy comparisons, eg Piecewise function
 @dispatch(Quantity, Quantity)  # type: ignore[misc]
-def _eval_is_ge(lhs: Quantity, rhs: Quantity) -> bool:
+def _eval_is_ge(lhs: Quantity, rhs: Quantity) -> Optional[bool]:
+    # NOTE: quantities of inequivalent dimensions are not comparable, so that e.g. `Max(1 m, 2 s)`
+    # stays as it is and is refused when a quantity is made of it
+    try:
+        assert_equivalent_dimension(lhs, "lhs", "_eval_is_ge", rhs)
+    except (TypeError, UnitsError):
+        return None
     return scale_factor(lhs) >= scale_factor(rhs)
 
 
